@@ -717,9 +717,32 @@ pub fn issue_op(c: &mut Commands, op: Op, cmd: CmdId, top: bool, rm: Option<&mut
             if mode == Mode::Revokable { issued.token = Some(tok_id); }
             record(issued);
             c.queue(marker(cmd));
-            let sc = spawn_actor_commands(c, new_id, variant);
-            let tok = c.react().with(bundle, sc, conv_mode(mode));
-            if let Some(tok) = tok { with_ctx(|x| x.tokens.push(tok)); }
+            // odd actor ids of the ordinary variant go through the convenience wrappers `on_revokable` / `on_persistent`
+            // (spawn + register in one call), everything else through spawn_system_command + `with`
+            if new_id % 2 == 1 && variant == Variant::Plain && mode == Mode::Revokable
+            {
+                let tok = c.react().on_revokable(bundle, plain_actor(new_id, false, true, vec![]));
+                let e = *SystemCommand::from(tok.clone());
+                with_ctx(|x| {
+                    x.names.insert(e, Name::Actor(new_id));
+                    x.actors.push(ActorRt{ entity: e, variant, runs: 0 });
+                    x.tokens.push(tok);
+                });
+            }
+            else if new_id % 2 == 1 && variant == Variant::Plain && mode == Mode::Persistent
+            {
+                let sc = c.react().on_persistent(bundle, plain_actor(new_id, false, true, vec![]));
+                with_ctx(|x| {
+                    x.names.insert(*sc, Name::Actor(new_id));
+                    x.actors.push(ActorRt{ entity: *sc, variant, runs: 0 });
+                });
+            }
+            else
+            {
+                let sc = spawn_actor_commands(c, new_id, variant);
+                let tok = c.react().with(bundle, sc, conv_mode(mode));
+                if let Some(tok) = tok { with_ctx(|x| x.tokens.push(tok)); }
+            }
         }
         Op::Once(variant, b) =>
         {
@@ -953,6 +976,16 @@ pub fn exclusive_actor(id: ActorId, sigs: Vec<AutoDespawnSignal>, flush_first: b
 
 fn spawn_actor_world(world: &mut World, id: ActorId, variant: Variant, sigs: Vec<AutoDespawnSignal>) -> SystemCommand
 {
+    // odd ordinary actors are spawned through the free function, the others through the `World` extension method
+    if id % 2 == 1 && variant == Variant::Plain
+    {
+        let sc = bevy_cobweb::prelude::spawn_system_command(world, plain_actor(id, false, true, sigs));
+        with_ctx(|x| {
+            x.names.insert(*sc, Name::Actor(id));
+            x.actors.push(ActorRt{ entity: *sc, variant, runs: 0 });
+        });
+        return sc;
+    }
     let sc = match variant
     {
         Variant::Plain => world.spawn_system_command(plain_actor(id, false, true, sigs)),
